@@ -966,6 +966,8 @@ def regex_match(it, pat, s, mode):
         raise Unsupported("regex flags")
     parsed = simple_regex(pat.pattern)
     if parsed is None:
+        if mode == 'fullmatch' and is_str(s) and any(isinstance(g, Opq) for g in segs_of(s)):
+            return abstract_regex_match(it, pat, s, mode)
         raise Unsupported("regex %r outside the literal subset" % pat.pattern)
     a0, atoms, a1 = parsed
     if mode == 'search' and not a0:
@@ -1057,6 +1059,120 @@ def symregex_match(it, rx, s, mode):
 
 class MatchObj:
     """a successful match of which only truthiness is used"""
+
+
+def _digit_class(items):
+    """set of code points of an IN item list when it is a class of ASCII digits only, else None"""
+    import re._constants as C
+    out = set()
+    for op, av in items:
+        if op is C.LITERAL:
+            out.add(av)
+        elif op is C.RANGE:
+            out.update(range(av[0], av[1] + 1))
+        else:
+            return None
+    if out and all(48 <= c <= 57 for c in out):
+        return out
+    return None
+
+
+def regex_group_facts(pattern, flags):
+    """{group number: (always_participates, kind, digit set)} from CPython's own parse tree of the pattern;
+    kind is 'digit1' (exactly one character of a digit class), 'digits' (one or more characters of a digit class) or None"""
+    import re._parser as P
+    import re._constants as C
+    facts = {}
+
+    def walk(seq, top):
+        for op, av in seq:
+            if op is C.SUBPATTERN:
+                g, _a, _d, sub = av
+                sub = list(sub)
+                kind, ds = None, None
+                if len(sub) == 1 and sub[0][0] is C.IN:
+                    ds = _digit_class(sub[0][1])
+                    kind = 'digit1' if ds else None
+                elif len(sub) == 1 and sub[0][0] in (C.MAX_REPEAT, C.MIN_REPEAT) and sub[0][1][0] >= 1:
+                    inner = list(sub[0][1][2])
+                    if len(inner) == 1 and inner[0][0] is C.IN:
+                        ds = _digit_class(inner[0][1])
+                        kind = 'digits' if ds else None
+                if g is not None:
+                    facts[g] = (top, kind, ds)
+                walk(sub, top)
+            elif op in (C.MAX_REPEAT, C.MIN_REPEAT, C.POSSESSIVE_REPEAT):
+                walk(list(av[2]), top and av[0] >= 1)
+            elif op is C.BRANCH:
+                for alt in av[1]:
+                    walk(list(alt), False)
+            elif op in (C.ASSERT, C.ASSERT_NOT):
+                walk(list(av[1]), False)
+            elif op is C.GROUPREF_EXISTS:
+                for alt in av[1:]:
+                    if alt:
+                        walk(list(alt), False)
+            elif op is C.ATOMIC_GROUP:
+                walk(list(av), top)
+    walk(list(P.parse(pattern, flags)), True)
+    return facts
+
+
+def abstract_regex_match(it, pat, s, mode):
+    """pattern outside the literal subset on opaque text: whether it matches is an uninterpreted predicate of
+    (mode, pattern, flags, text); the groups of a match are uninterpreted functions of (pattern, flags, group, text)"""
+    ctx = it.ctx
+    ctx.assumed_models.add("re.fullmatch of a general pattern on opaque text: an uninterpreted predicate of (pattern, flags, text); "
+                           "groups are uninterpreted functions of (pattern, flags, group number, text); a group whose sub-pattern is a "
+                           "class of ASCII digits (once, or repeated at least once) is a decimal literal made of those digits")
+    key = lit("%s/%d/%s" % (mode, pat.flags, pat.pattern))
+    t = str_term(s)
+    if ctx.decide(ufun('re_matches', PyStr, PyStr, z3.BoolSort())(key, t)):
+        return AbsMatch(pat, s, key)
+    return None
+
+
+def regex_group_value(ctx, pat, key, s, g):
+    """the text of group g of a successful abstract match (a string value), or None for a group that did not take part"""
+    facts = regex_group_facts(pat.pattern, pat.flags)
+    top, kind, ds = facts.get(g, (False, None, None))
+    t = str_term(s)
+    if not top:
+        if not ctx.decide(ufun('re_group_present', PyStr, z3.IntSort(), PyStr, z3.BoolSort())(key, I(g), t)):
+            return None
+    if kind == 'digit1':
+        c = ufun('re_group_char', PyStr, z3.IntSort(), PyStr, z3.IntSort())(key, I(g), t)
+        ctx.assume(z3.Or(*[c == d for d in sorted(ds)]))
+        return mkstr([c])
+    gt = ufun('re_group', PyStr, z3.IntSort(), PyStr, PyStr)(key, I(g), t)
+    if kind == 'digits':
+        ctx.assume(ufun('int_literal_valid', PyStr, z3.IntSort(), z3.BoolSort())(gt, I(10)))
+        ctx.assume(ufun('int_of_str', PyStr, z3.IntSort(), z3.IntSort())(gt, I(10)) >= 0)
+    return mkstr([Opq(gt)])
+
+
+class AbsMatch:
+    """a successful abstract match: truthy; groups() / group(k) give opaque texts"""
+
+    def __init__(self, pat, s, key):
+        self.pat = pat
+        self.s = s
+        self.key = key
+
+
+def absmatch_method(it, m, name, args, kwargs):
+    ctx = it.ctx
+    if name == 'groups' and not args and not kwargs:
+        return tuple(regex_group_value(ctx, m.pat, m.key, m.s, g) for g in range(1, m.pat.groups + 1))
+    if name == 'group' and len(args) <= 1 and not kwargs:
+        g = args[0] if args else 0
+        if isinstance(g, int) and g == 0:
+            return m.s
+        if isinstance(g, int) and 1 <= g <= m.pat.groups:
+            return regex_group_value(ctx, m.pat, m.key, m.s, g)
+        if isinstance(g, int):
+            raise_py(IndexError, "no such group")
+    raise Unsupported("match.%s on an abstract match" % name)
 
 
 # ------------------------------------------------------------------ dispatch tables
@@ -1248,6 +1364,8 @@ def call_method(it, v, name, args, kwargs):
         if name == 'bit_length' and isinstance(v, int):
             return v.bit_length()
         raise Unsupported("int.%s" % name)
+    if isinstance(v, AbsMatch):
+        return absmatch_method(it, v, name, args, kwargs)
     if isinstance(v, (re.Pattern, SymRegex)):
         if name in ('match', 'fullmatch', 'search'):
             return regex_match(it, v, args[0], name)
